@@ -643,6 +643,16 @@ struct Value {
         DO(tagged_hash);
         DO(taproot_tweak_pubkey);
         DO(prefix_compact_size);
+        DO(bech32menc);
+        DO(verify_sig_compact);
+        DO(len);
+        // the names under which `tf -h` lists the inline operators
+        if (fun == "b32e") { do_bech32enc(); return true; }
+        if (fun == "b32me") { do_bech32menc(); return true; }
+        if (fun == "b32d") { do_bech32dec(); return true; }
+        if (fun == "b58ce") { do_base58chkenc(); return true; }
+        if (fun == "b58cd") { do_base58chkdec(); return true; }
+        if (fun == "jacobi_sym") { do_jacobi_symbol(); return true; }
 #ifdef ENABLE_DANGEROUS
         // DO(taproot_tweak_seckey);
         DO(combine_privkeys);
